@@ -133,6 +133,14 @@ KREC_LOOPS = {r"^krec::sendmsg$": 8}
 FS_ARRAY = int(os.environ.get("IPC_VERIF_FS_ARRAY", "320"))
 
 
+LIBC_NAMES = {"fcntl", "dup", "dup2", "dup3", "close", "socketpair", "sendmsg", "recvmsg", "send", "recv", "sendto", "recvfrom", "poll",
+              "ppoll", "mmap", "munmap", "fstat", "fstat64", "shm_open", "shm_unlink", "ftruncate", "ftruncate64", "socket", "connect",
+              "bind", "listen", "accept", "accept4", "getsockopt", "setsockopt", "epoll_create", "epoll_create1", "epoll_ctl",
+              "epoll_wait", "epoll_pwait", "eventfd", "pipe", "pipe2", "read", "write", "open", "open64", "openat", "unlink", "mkdir",
+              "rmdir", "getpid", "clock_gettime", "nanosleep", "ioctl", "shutdown", "memfd_create", "syscall", "fork", "waitpid",
+              "kill", "sigaction", "select", "readv", "writev", "lseek", "stat", "lstat", "getrandom"}
+
+
 def run_harness(harness, features, loops=None, timeout=900, mem_gb=14, playback=False, keep=False, tag="", optional_witnesses=()):
     """returns dict(verdict, failed=[...], covers={...}, stats={...}, log=path)"""
     base_loops = dict(KQ_LOOPS_BIGFD if "bigfd" in features else KQ_LOOPS if "k_q" in features else KREC_LOOPS)
@@ -350,6 +358,10 @@ def parse_log(log, res):
         return
     if unwinding:
         res["reason"] = "unwinding assertion: " + "; ".join(sorted(set(f["loc"] for f in unwinding)))[:600]
+        return
+    if any("UNMODELLED libc call" in f["desc"] for f in real):
+        res["failed"] = []
+        res["reason"] = "; ".join(sorted(set(f["desc"] for f in real if "UNMODELLED" in f["desc"])))
         return
     if real:
         res["verdict"] = "FAIL"
